@@ -38,10 +38,14 @@ AXES = {
            "ms1", "ms1-bcg", "mie2", "ms2", "mie3far", "tm-sphere",
            "tm-spheroid", "tm-cylinder", "mielens", "abmielens", "mielens2",
            "lens-mie", "auto"],
-    "det": ["g3x3", "g1x1", "g1x4", "g4x5a", "g3x3o", "p3", "p4z0", "g2ch"],
-    "pol": [(1, 0), (0, 1), (1, 1), (0.6, -0.8), (3, 4)],
+    "det": ["g3x3", "g1x1", "g1x4", "g4x5a", "g3x3o", "p3", "p4z0", "g2ch",
+            "g2chr"],
+    "pol": [(1, 0), (0, 1), (1, 1), (0.6, -0.8), (3, 4), (1, 1, 0)],
     "alpha": [1.0, 0.0, 0.5, 1.7, -1.0],
-    "optics": ["args", "detector"],
+    # args: optics passed as arguments; detector: optics already on the
+    # detector; override: the detector carries OTHER (stale) optics and the
+    # arguments must win
+    "optics": ["args", "detector", "override"],
 }
 
 # operation alphabet; the "2"/"3" variants differ from their base only
@@ -91,7 +95,7 @@ def _op_digest(name):
 
 # --------------------------------------------------------------------------
 def _detector(name):
-    if name == "g2ch":
+    if name in ("g2ch", "g2chr"):
         return H.det_grid(3, 0.1, extra_dims={"illumination": ["red",
                                                                 "green"]})
     return H.DETS[name]()
@@ -106,9 +110,21 @@ def _run_input(case, ck):
     scat, theory = H.mk(v["st"])
     pol, alpha = v["pol"], v["alpha"]
     wl = H.WL
+    multi = v["det"] in ("g2ch", "g2chr")
     if v["det"] == "g2ch":
         wl = {"red": 0.66, "green": 0.52}
-    if v["optics"] == "detector":
+    elif v["det"] == "g2chr":
+        # dictionaries listed in another order than the detector's channels
+        wl = {"green": 0.52, "red": 0.66}
+        if alpha not in (0.0, 1.0):
+            alpha = {"green": alpha, "red": alpha / 2}
+    if v["optics"] == "override":
+        det = update_metadata(det, medium_index=1.0, illum_wavelen=(
+            {"red": 0.4, "green": 0.45} if multi else 0.4),
+            illum_polarization=(0, 1) if pol[0] else (1, 0))
+        kw = dict(medium_index=H.NMED, illum_wavelen=wl,
+                  illum_polarization=pol)
+    elif v["optics"] == "detector":
         det = update_metadata(det, medium_index=H.NMED, illum_wavelen=wl,
                               illum_polarization=pol)
         kw = {}
@@ -125,12 +141,17 @@ def _run_input(case, ck):
         if H.is_refusal(e):
             return "refused:" + type(e).__name__, "refused"
         raise
-    nrm = math.hypot(*pol)
+    nrm = math.hypot(pol[0], pol[1])
     phat = xr.DataArray([pol[0] / nrm, pol[1] / nrm],
                         coords={"vector": ["x", "y"]}, dims="vector")
     fxy = field.sel(vector=["x", "y"])
+    a_x = alpha
+    if isinstance(alpha, dict):
+        a_x = xr.DataArray([alpha["red"], alpha["green"]],
+                           dims="illumination",
+                           coords={"illumination": ["red", "green"]})
     # (a) the statement itself, evaluated with plain xarray arithmetic
-    exp_h = (abs(fxy * alpha + phat) ** 2).sum("vector")
+    exp_h = (abs(fxy * a_x + phat) ** 2).sum("vector")
     exp_i = (abs(fxy) ** 2).sum("vector")
     exp_h = exp_h.transpose(*holo.dims)
     exp_i = exp_i.transpose(*inten.dims)
@@ -189,15 +210,14 @@ def _run_input(case, ck):
                 "expected unit vector %r" % (nm, p.tolist(), pe.tolist()))
         w = a.get("illum_wavelen")
         wv = np.asarray(getattr(w, "values", w), dtype=float).ravel()
-        we = np.array([0.66, 0.52]) if v["det"] == "g2ch" else \
-            np.array([H.WL])
+        we = np.array([0.66, 0.52]) if multi else np.array([H.WL])
         ck.true("attrs-wavelen", sorted(wv.tolist()) == sorted(we.tolist()),
                 "%s: stored wavelength %r" % (nm, wv.tolist()))
     ck.true("input-untouched", fp_xarray(det) == fp_det,
             "the detector object was modified by the calculation (%s)" % v)
     # (f) independent anchor for Sphere x Mie (all option pairs)
     if v["st"] in ("mie", "mie-norad", "mie-asym", "mie-far") and \
-            v["det"] != "g2ch":
+            not multi and not isinstance(alpha, dict):
         rad, full = {"mie": (True, True), "mie-norad": (False, True),
                      "mie-asym": (True, False),
                      "mie-far": (False, False)}[v["st"]]
